@@ -169,11 +169,11 @@ class CreateTableStatementSegment(hive.CreateTableStatementSegment):
                 Sequence(
                     "CACHED",
                     "IN",
-                    Delimited(Ref("PoolNameReferenceSegment")),
+                    Delimited(Ref("QuotedLiteralSegment")),
                     Sequence(
                         "WITH",
                         "REPLICATION",
-                        "=",
+                        Ref("EqualsSegment"),
                         Ref("NumericLiteralSegment"),
                         optional=True,
                     ),
@@ -236,11 +236,11 @@ class CreateTableAsSelectStatementSegment(BaseSegment):
                 Sequence(
                     "CACHED",
                     "IN",
-                    Delimited(Ref("PoolNameReferenceSegment")),
+                    Delimited(Ref("QuotedLiteralSegment")),
                     Sequence(
                         "WITH",
                         "REPLICATION",
-                        "=",
+                        Ref("EqualsSegment"),
                         Ref("NumericLiteralSegment"),
                         optional=True,
                     ),
